@@ -1026,6 +1026,7 @@ func ruleSQL(c *Ctx) {
 		c.R.Check(okChk, "ext.CompileToSql", "SQL-2 bound values are type-checked against the model", cts.Pos(), "types.Equals per binding before emission", "run-time bindings are not compared with the model's types")
 	}
 	c.sqlCriteria()
+	c.sqlConnectives()
 }
 
 // SQL-6: a criteria tree is lowered member by member. Every member is lowered by its own expr(); code that looks INTO a
@@ -2005,4 +2006,114 @@ func (c *Ctx) sourceIdentity(tag string) {
 	}
 	c.R.Check(okIn, "parser/lexer.lexer.Lex", tag+" the lexed runes are the caller's string", lx.Pos(), "l.input = []rune(input), input never assigned", whyIn+": every token position is then an offset into a different string than the one the caller holds")
 	c.R.Check(okPos, "parser/lexer.lexer.Lex", tag+" lexing starts at the zero position", lx.Pos(), "l.Pos = pos.Pos{}", "the cursor is not reset to the zero position at the start of Lex")
+}
+
+
+// sqlConnectives (SQL-7): the boolean structure of the output is the structure of the criteria tree because the only code
+// that writes a connective is the code compile() knows how to parenthesise. The constants AND / OR / NOT (and string
+// literals spelling them as words) occur only in the definitions of the functions listed in logicalFunPrecTbl, as a
+// function's registered name, or — AND — inside the BETWEEN form, which binds tighter than any connective. Any other
+// function that joins fragments with OR / AND (an IN list split into several predicates, say) produces a group that no
+// enclosing AND / NOT will wrap.
+func (c *Ctx) sqlConnectives() {
+	pk := c.Mod["ext/sql"]
+	if pk == nil {
+		return
+	}
+	logical := map[string]bool{}
+	for _, e := range c.tableEntries("ext/sql", "logicalFunPrecTbl") {
+		if o := c.objOf(e.key); o != nil {
+			logical[o.Name()] = true
+		}
+	}
+	conn := map[types.Object]string{}
+	for _, n := range []string{"AND", "OR", "NOT"} {
+		if o := c.Obj("ext/sql", n); o != nil {
+			conn[o] = n
+		}
+	}
+	between := c.Obj("ext/sql", "BETWEEN")
+	n := 0
+	for _, f := range pk.Syntax {
+		for _, d := range f.Decls {
+			owner := "?"
+			var scopes []ast.Node // one per top-level definition
+			switch x := d.(type) {
+			case *ast.FuncDecl:
+				owner = x.Name.Name
+				scopes = []ast.Node{x}
+			case *ast.GenDecl:
+				if x.Tok == token.CONST {
+					continue
+				}
+				for _, sp := range x.Specs {
+					scopes = append(scopes, sp)
+				}
+			}
+			for _, sc := range scopes {
+				if vs, ok := sc.(*ast.ValueSpec); ok && len(vs.Names) > 0 {
+					owner = vs.Names[0].Name
+				}
+				if owner == "logicalFunPrecTbl" {
+					continue
+				}
+				var stack []ast.Node
+				ast.Inspect(sc, func(x ast.Node) bool {
+					if x == nil {
+						stack = stack[:len(stack)-1]
+						return false
+					}
+					stack = append(stack, x)
+					word := ""
+					switch e := x.(type) {
+					case *ast.Ident:
+						if w, ok := conn[c.objOf(e)]; ok && c.infoAt(e).Uses[e] != nil {
+							word = w
+						}
+					case *ast.BasicLit:
+						if e.Kind == token.STRING {
+							if v, ok := c.constStr(e); ok {
+								for _, w := range strings.Fields(strings.ToUpper(v)) {
+									if w == "AND" || w == "OR" || w == "NOT" {
+										word = w
+									}
+								}
+								if strings.Contains(strings.ToUpper(v), "BETWEEN") || strings.Contains(strings.ToUpper(v), "IS NOT") || strings.Contains(strings.ToUpper(v), "NOT IN") || strings.Contains(strings.ToUpper(v), "NOT LIKE") {
+									word = ""
+								}
+							}
+						}
+					}
+					if word == "" {
+						return true
+					}
+					n++
+					// the registered name of a function: first argument of types.Fun
+					for i := len(stack) - 2; i >= 0; i-- {
+						if ce, ok := stack[i].(*ast.CallExpr); ok {
+							if c.calleeName(ce) == "types.Fun" && len(ce.Args) > 0 && ce.Args[0].Pos() <= x.Pos() && x.End() <= ce.Args[0].End() {
+								return true
+							}
+							// AND inside the BETWEEN form
+							if word == "AND" && between != nil {
+								hasBetween := false
+								ast.Inspect(ce, func(y ast.Node) bool {
+									if id, ok := y.(*ast.Ident); ok && c.objOf(id) == between {
+										hasBetween = true
+									}
+									return !hasBetween
+								})
+								if hasBetween {
+									return true
+								}
+							}
+						}
+					}
+					c.R.Check(logical[owner], "ext/sql."+owner, "SQL-7 connective "+word+" written by a function of the precedence table", x.Pos(), "compile() parenthesises this function's output by precedence", "the connective "+word+" is written by "+owner+", which logicalFunPrecTbl does not list: its output is never parenthesised, so under an enclosing AND / NOT it regroups (a = 1 AND x IN (..) OR x IN (..))")
+					return true
+				})
+			}
+		}
+	}
+	c.R.Check(n >= 3, "ext/sql", "SQL-7 connective sites found", token.NoPos, fmt.Sprintf("%d", n), "fewer than three uses of AND / OR / NOT found in ext/sql")
 }
